@@ -20,6 +20,10 @@ func propC19(c *Ctx, r *Report) {
 	r.Clauses = append(r.Clauses, userShadowClause+" - renaming a function to a name shaped like a built-in (vecs, step, min) must not change what a call means")
 	c.runUserShadow(r, "call.usershadow", "wgsl/internal/lower")
 	r.floor("call.usershadow", 1)
+	r.Clauses = append(r.Clauses, splitRemainderClause)
+	c.runSplitRemainder(r, "lex.splitremainder", "wgsl/internal/parser")
+	r.floor("lex.splitremainder", 4)
+	r.floor("lex.tokenSpellings", 60)
 	r.Clauses = append(r.Clauses, "syntax-tree walkers (E3): every function reachable from the parser / lowerer entry points that walks the parser's tree (a type switch over Expr, Stmt, Type or Decl nodes using every child in >= 3/4 of its arms) uses every child node of every variant it has an arm for and, when it has no default arm, has an arm for every variant that has children (dependency ordering that misses a reference makes acceptance depend on declaration order)")
 	c.runFrontendASTWalkers(r, "frontend")
 	r.Clauses = append(r.Clauses, "token characters (E20): in the lexer's punctuation scanner the characters consumed on the path to every addToken(K) - case label, successful match() tests, advance() calls - spell exactly the WGSL token K, and the block-comment skipper is entered with exactly \"/*\" consumed (so a comment or operator never shifts the position from which the following text is lexed)")
@@ -109,6 +113,9 @@ func propC07(c *Ctx, r *Report) {
 	c.runColStride(r, "layout.colstride", func(string) bool { return true })
 	r.floor("layout.colstride", 3)
 	r.Clauses = append(r.Clauses, roundUpClause+" - here: member offsets, struct spans and array strides in the lowerer and the alignment helpers of the backends")
+	r.Clauses = append(r.Clauses, "per-element padding (E87): in the ir.ArrayType arm of a layout function the round-up idiom is applied to the element size, never to a value that already contains the element count")
+	c.runArrayRound(r, "layout.arrayround", inPkgs("wgsl/internal/lower", "ir"))
+	r.floor("layout.arrayround", 1)
 	c.runRoundUp(r, "arith.roundup", inPkgs("wgsl/internal/lower", "ir", "hlsl", "msl", "glsl", "spirv"), "arith.roundup")
 	r.floor("arith.roundup", 8)
 	r.inst("layout.fields", n)
@@ -118,3 +125,5 @@ func propC07(c *Ctx, r *Report) {
 var layoutExceptions = map[string]string{
 	"spirv/internal/codegen:ir.StructType.Span": "SPIR-V has no struct-size decoration: member Offset decorations and ArrayStride carry the whole layout, so Span is not needed by this backend",
 }
+
+const splitRemainderClause = "template close splitting (E82): where the parser answers a token kind X by a helper that consumes one '>' and rewrites the current token to kind K with lexeme L, spelling(X) = \">\" + L and spelling(K) = L in the package's token-name table"
